@@ -609,12 +609,12 @@ theorem quorumW_values_batching_independent_refuted :
     decide
 
 
-/-- REFUTED for `collect_quorum_with_response` on a totally ordered input, already with `min = max`:
-the output stream keeps the input's `TotalOrder` type, but the emitted *sequence* depends on the
-batching — the values of one key come out together in the tick where the key reaches `min`, so the
-interleaving of different keys follows the batch boundaries (the multiset is the same).
-Witness: `min = max = 2`, responses `(0, Ok 1), (1, Ok 2), (1, Ok 3), (0, Ok 4)`. -/
-theorem quorumW_output_order_batching_independent_refuted :
+/-- OBSERVATION, not a finding and not a clause of C39 (the property promises nothing about the
+relative order of DIFFERENT keys in the output): for `collect_quorum_with_response` the values of one
+key come out together in the tick where the key reaches `min`, so the interleaving of different keys
+in the emitted sequence follows the batch boundaries, already with `min = max` (the multiset and the
+per-key order are the same).  Witness: `min = max = 2`, responses `(0, Ok 1), (1, Ok 2), (1, Ok 3), (0, Ok 4)`. -/
+theorem quorumW_cross_key_interleaving_follows_batches_observation :
     ∃ (b₁ b₂ : List (List (Resp Nat Nat Nat))),
       QuorumInput 2 2 b₁ ∧ QuorumInput 2 2 b₂ ∧ b₁.flatten = b₂.flatten ∧
       (runW 2 2 {} b₁).flatten.Perm (runW 2 2 {} b₂).flatten ∧
@@ -873,7 +873,7 @@ example : Timely (M := Nat) (V := Nat) [] [([], [(1, 100), (2, 200)]), ([(2, 7)]
 example : (runJ ([] : List (Nat × Nat)) [([], [(1, 100), (2, 200)]), ([(2, 7)], []), ([(1, 5)], [])]).flatten.filter
     (fun x => x.1 = 1) = [(1, (100, 5))] :=
   join_run_matches_exactly_once 1 100 5 _ (by simp [Timely]) (by decide) (by decide)
-/-- the cross-key order dependence on the model (`min = max = 2`) -/
+/-- observation only (no clause of C39): cross-key interleaving on the model (`min = max = 2`) -/
 example : runW 2 2 ({} : St Nat Nat Nat) [[(0, .ok 1), (1, .ok 2), (1, .ok 3), (0, .ok 4)]] = [[(0, 1), (1, 2), (1, 3), (0, 4)]] ∧
     runW 2 2 ({} : St Nat Nat Nat) [[(0, .ok 1), (1, .ok 2), (1, .ok 3)], [(0, .ok 4)]] = [[(1, 2), (1, 3)], [(0, 1), (0, 4)]] := by decide
 end Examples
